@@ -1,16 +1,58 @@
 """Real-code adapter for the `mh` stream: executes each op line against the
 sourmash package assembled from /repo's working tree (on PYTHONPATH) and
-prints one canonical observation per line."""
+prints one canonical observation per line.
+
+Periphery (none of it visible to the model, which has value semantics):
+* ROUTES: one modelled operation is issued through one of several spellings of the Python layer that end in the same
+  native call or helper (operator / method / keyword default / argument type / frozen or mutable receiver / helper
+  function / constructor taking an existing collection); the choice rotates with a per-case counter (`route(n)`).
+* VIEWS: after every operation everything that can be read about the touched sketch through two routes must agree
+  (`show`: hashes / len / deprecated accessors / membership / derived statistics / `==`), and for a signature every
+  md5-derived view (md5sum, hash, str, repr, manifest row md5 + md5short, JSON md5sum field, copies).
+* HISTORIES: every object a call returned is kept; an object no handle refers to any more must keep the observation it
+  had when it was replaced (`retired`), re-verified after every operation; read-only entry points are called twice
+  and with the operands in both orders.
+A disagreement surfaces as `err AssertionError` in the line of the operation (a correspondence disagreement with a
+concrete replay) or, for md5 views, as a wrong md5 in the signature line (judged by the property oracle).
+"""
+import collections
+import copy as copymod
+import io
+import json
 import pickle
 import sys
 
 import sourmash
 from sourmash import MinHash, SourmashSignature
 from sourmash._lowlevel import lib
-from sourmash.utils import decode_str
+from sourmash.manifest import CollectionManifest
+from sourmash.minhash import (FrozenMinHash, flatten_and_downsample_num, flatten_and_downsample_scaled,
+                              flatten_and_intersect_scaled)
+from sourmash.utils import decode_str, rustcall
 
+
+import random
 
 NROUTE = [0]
+_RNG = [random.Random(0), 0]
+
+
+def new_case():
+    """a fresh, reproducible stream of route choices for every case (the n-th case of an adapter run)"""
+    _RNG[1] += 1
+    _RNG[0] = random.Random(_RNG[1])
+    NROUTE[0] = 0
+
+
+def route(n):
+    """choice among n spellings of one modelled operation (the model does not see it): pseudo-random per case, so
+    that choices made in one operation are not correlated with each other"""
+    NROUTE[0] += 1
+    return _RNG[0].randrange(n)
+
+
+def raw_md5(mh):
+    return decode_str(mh._methodcall(lib.kmerminhash_md5sum))
 
 
 def show(mh):
@@ -18,19 +60,67 @@ def show(mh):
     keys = list(hs.keys())
     assert keys == sorted(keys), "hashes not ascending"
     # the Python-side views of one sketch must agree with each other (seeded C01d memoised `.hashes` and forgot one
-    # of the mutators): len() and iteration go to the native sketch directly, `.hashes` builds a dict
-    assert len(mh) == len(keys), "len(mh) != len(mh.hashes)"
-    assert list(mh) == keys if hasattr(type(mh), "__iter__") else True, "iter(mh) != mh.hashes"
-    mins = ",".join(str(k) for k in keys)
-    if mh.track_abundance:
-        ab = ",".join(str(hs[k]) for k in keys)
+    # of the mutators): len() goes to the native sketch directly, `.hashes` builds a dict
+    n = len(mh)
+    assert n == len(keys) == len(hs), "len(mh) != len(mh.hashes)"
+    assert bool(mh) == (n > 0), "truth value"
+    if hasattr(type(mh), "__iter__"):
+        assert list(mh) == keys, "iter(mh) != mh.hashes"
+    if hasattr(type(mh), "__contains__"):
+        assert all(k in mh for k in keys[:3]), "`in` disagrees with hashes"
+    # deprecated accessors and the mapping wrapper
+    assert list(mh.get_mins()) == keys and list(mh.get_hashes()) == keys, "get_mins / get_hashes != hashes"
+    assert dict(mh.get_mins(with_abundance=True)) == dict(hs), "get_mins(with_abundance) != hashes"
+    assert all(k in hs for k in keys[:3]) and (keys[-1] + 1 if keys and keys[-1] < 2 ** 64 - 1 else -1) not in hs
+    assert mh.max_hash == mh._max_hash, "max_hash != _max_hash"
+    # second read: a read must not change what is read
+    hs2 = mh.hashes
+    assert dict(hs2) == dict(hs) and hs2 == hs, "two reads of .hashes differ"
+    tr = mh.track_abundance
+    if tr:
+        vals = [hs[k] for k in keys]
+        assert mh.sum_abundances == sum(vals), "sum_abundances"
+        if vals and max(vals) < 2 ** 40:
+            assert abs(mh.mean_abundance - sum(vals) / len(vals)) <= 1e-6 * max(vals), "mean_abundance"
+            sv = sorted(vals)
+            med = sv[len(sv) // 2] if len(sv) % 2 else (sv[len(sv) // 2 - 1] + sv[len(sv) // 2]) / 2
+            assert abs(mh.median_abundance - med) <= 1e-6 * max(vals), "median_abundance"
+            assert mh.std_abundance >= 0
+        ab = ",".join(str(v) for v in vals)
     else:
+        assert all(v == 1 for v in hs.values()), "flat sketch reports abundances"
+        assert mh.sum_abundances is None
         ab = "-"
-    return (f"ok num={mh.num} mh={mh._max_hash} sc={mh.scaled} tr={int(mh.track_abundance)}"
+    if mh.scaled:
+        assert mh.unique_dataset_hashes == n * mh.scaled, "unique_dataset_hashes"
+    assert mh.is_compatible(mh)
+    assert repr(hs) == repr(dict(hs)), "repr of the hashes view"
+    try:
+        hs[1] = 1
+        raise AssertionError("the hashes view accepted an assignment")
+    except RuntimeError:
+        pass
+    mins = ",".join(str(k) for k in keys)
+    return (f"ok num={mh.num} mh={mh._max_hash} sc={mh.scaled} tr={int(tr)}"
             f" mins={mins} ab={ab}")
 
 
+def own_assertion(e):
+    """an AssertionError raised by one of the adapters' OWN checks (views / histories / routes disagree), as opposed to
+    an `assert` inside the package under test"""
+    if not isinstance(e, AssertionError):
+        return False
+    tb = e.__traceback__
+    while tb is not None and tb.tb_next is not None:
+        tb = tb.tb_next
+    import os
+    return tb is not None and os.path.basename(tb.tb_frame.f_code.co_filename) in ("mh_impl.py", "setops_impl.py")
+
+
 def exc_name(e):
+    if own_assertion(e):
+        # two views / two routes / two moments of the real code disagree: judged by the property oracle
+        return "ViewDisagreement " + "_".join(str(e).split())[:200]
     for cls in (TypeError, RuntimeError, ValueError, AssertionError, OverflowError):
         if isinstance(e, cls):
             return cls.__name__
@@ -46,9 +136,120 @@ def sigobs(ss):
             f"repr={shown.split('(')[1].rstrip(')').split(', ')[-1]} name={ss.name!r} mins={','.join(map(str, keys))}")
 
 
+def sig_md5_views(ss):
+    """every md5-derived view of a signature, as (label, md5 or md5 prefix)"""
+    v = []
+    v.append(("md5sum", ss.md5sum()))
+    v.append(("minhash", raw_md5(ss.minhash)))
+    v.append(("md5sum-again", ss.md5sum()))
+    row = CollectionManifest.make_manifest_row(ss, None, include_signature=False)
+    v.append(("manifest-md5", row["md5"]))
+    v.append(("manifest-md5short", row["md5short"]))
+    assert row["n_hashes"] == len(ss.minhash) and row["ksize"] == ss.minhash.ksize, "manifest row n_hashes / ksize"
+    if not ss.name and not ss.filename:
+        v.append(("str", str(ss)))
+        v.append(("repr", repr(ss).split("(")[1].rstrip(")").split(", ")[-1]))
+    js = json.loads(sourmash.save_signatures_to_json([ss]))
+    v.append(("json-md5sum", js[0]["signatures"][0]["md5sum"]))
+    v.append(("copy", copymod.copy(ss).md5sum()))
+    v.append(("frozen", ss.to_frozen().md5sum()))
+    v.append(("pickle", pickle.loads(pickle.dumps(ss)).md5sum()))
+    assert len(ss) == 1, "len(signature)"
+    fz = ss.to_frozen()
+    for attempt in (lambda: setattr(fz, "minhash", ss.minhash), lambda: setattr(fz, "name", "x"),
+                    lambda: setattr(fz, "filename", "x"), lambda: setattr(fz, "_name", "x"),
+                    lambda: fz.add_sequence("ACGT" * 8), lambda: fz.add_protein("MKV"), lambda: fz.__setstate__(("", "", ss.minhash))):
+        try:
+            attempt()
+            raise AssertionError("a frozen signature accepted a modification")
+        except ValueError:
+            pass
+    assert fz.to_frozen() is fz and copymod.copy(fz) is fz
+    fz.into_frozen()
+    assert fz.filename == ss.filename and fz.license == ss.license
+    v.append(("frozen-after-refusals", fz.md5sum()))
+    return v
+
+
+def sig_line(ss):
+    """`sig k=.. mins=.. md5 X | md5 Y`: X = sig.md5sum(); Y = the first md5 view that disagrees with X (else the md5 of
+    sig.minhash): the property oracle recomputes the digest from k and mins and compares both"""
+    mh = ss.minhash
+    keys = list(mh.hashes.keys())
+    k = mh.ksize if mh.is_dna else mh.ksize * 3
+    x = ss.md5sum()
+    y = raw_md5(ss.minhash)
+    for label, m in sig_md5_views(ss):
+        if m != x[:len(m)]:
+            y = m + "(" + label + ")"
+            break
+    assert hash(ss) == hash(x), "hash(sig) is not the hash of its md5"
+    return f"sig k={k} mins={','.join(map(str, keys))} md5 {x} | md5 {y}"
+
+
+class Retired:
+    """objects no handle refers to any more, with the observation they had when they were replaced"""
+
+    def __init__(self):
+        self.items = []
+
+    def note(self, obj, table):
+        if obj is None or any(obj is v for v in table.values()) or any(obj is o for o, _ in self.items):
+            return
+        try:
+            self.items.append((obj, show(obj)))
+        except BaseException:      # noqa: BLE001
+            pass
+        if len(self.items) > 24:
+            self.items.pop(0)
+
+    def verify(self):
+        for obj, was in self.items:
+            now = show(obj)
+            assert now == was, f"an object returned earlier changed: {was[:60]} -> {now[:60]}"
+
+
+def frozen_refuses(mh):
+    """a frozen copy refuses every mutator and keeps its content"""
+    f = mh.to_frozen()
+    was = show(f)
+    calls = [lambda: f.add_hash(1), lambda: f.add_many([1]), lambda: f.remove_many([1]), lambda: f.clear(),
+             lambda: f.add_hash_with_abundance(1, 1), lambda: f.set_abundances({1: 1}), lambda: f.add_sequence("ACGT" * 8),
+             lambda: f.add_kmer("A" * f.ksize), lambda: f.add_protein("MKV"), lambda: f.merge(mh),
+             lambda: f.__iadd__(mh), lambda: setattr(f, "track_abundance", not f.track_abundance)]
+    for c in calls:
+        try:
+            c()
+            raise AssertionError("a frozen sketch accepted a modification")
+        except TypeError:
+            pass
+    assert f.to_frozen() is f and f.copy() is f
+    f.into_frozen()
+    assert show(f) == was, "a frozen sketch changed"
+    return f
+
+
+def put(T, R, r, obj):
+    old = T.get(r)
+    T[r] = obj
+    if old is not None and old is not obj:
+        R.note(old, T)
+
+
+def stable(*mhs):
+    """routes that rebuild a sketch through `max_hash -> scaled -> max_hash` once more than the modelled spelling are
+    only the same operation where that round trip is the identity: scaled <= 2^31 (C03; above it: known finding D22)"""
+    return all(m.scaled <= 2 ** 31 for m in mhs)
+
+
+def valid_dna(seq):
+    return all(c in "ACGT" for c in seq)
+
+
 def main():
     T = {}
     G = {}
+    R = Retired()
     out = sys.stdout
     for line in sys.stdin:
         w = line.split()
@@ -60,7 +261,8 @@ def main():
             if op == "#":
                 T = {}
                 G = {}
-                NROUTE[0] = 0
+                R = Retired()
+                new_case()
                 out.write("#\n")
                 continue
             a = w[1:]
@@ -68,24 +270,74 @@ def main():
                 # modelled signature-object ops
                 si = int(a[0])
                 if op == "sig":
-                    G[si] = SourmashSignature(T[int(a[1])])
+                    src = T[int(a[1])]
+                    c = route(3)
+                    if c == 0:
+                        G[si] = SourmashSignature(src)
+                    elif c == 1:
+                        G[si] = SourmashSignature(src, name="", filename="")
+                    else:
+                        # build around another sketch first, then hand the sketch over through the setter
+                        g = SourmashSignature(src.copy_and_clear())
+                        g.minhash = src
+                        G[si] = g
                 elif op == "sigsetmh":
                     G[si].minhash = T[int(a[1])]
+                    src = T[int(a[1])]
+                if op in ("sig", "sigsetmh"):
+                    # the signature holds the sketch it was given: parameters, hashes AND abundances
+                    got = G[si].minhash
+                    assert (got.num, got._max_hash, got.track_abundance, got.ksize, got.seed, dict(got.hashes)) == \
+                        (src.num, src._max_hash, src.track_abundance, src.ksize, src.seed, dict(src.hashes)), \
+                        "the signature does not hold the sketch it was given"
                 elif op == "sigmd5":
-                    G[si].md5sum(); hash(G[si]); str(G[si])
+                    G[si].md5sum(); hash(G[si]); str(G[si]); repr(G[si])
                 elif op == "sigadd":
-                    G[si].add_sequence(a[1], bool(int(a[2])))
+                    seq, force = a[1], bool(int(a[2]))
+                    c = route(3) if valid_dna(seq) else 0
+                    if c == 0:
+                        G[si].add_sequence(seq, force)
+                    elif c == 1:
+                        # read the sketch out, change it, hand it back
+                        mh = G[si].minhash.to_mutable()
+                        mh.add_sequence(seq, force)
+                        G[si].minhash = mh
+                    else:
+                        with G[si].to_frozen().update() as s2:
+                            s2.add_sequence(seq, force)
+                        G[si] = s2.to_mutable()
                 elif op == "sigcopy":
-                    G[si] = pickle.loads(pickle.dumps(G[int(a[1])]))
-                ss = G[si]
-                mh = ss.minhash
-                keys = list(mh.hashes.keys())
-                k = mh.ksize if mh.is_dna else mh.ksize * 3
-                out.write(f"sig k={k} mins={','.join(map(str, keys))} md5 {ss.md5sum()} | "
-                          f"md5 {decode_str(ss.minhash._methodcall(lib.kmerminhash_md5sum))}\n")
+                    src = G[int(a[1])]
+                    c = route(5)
+                    if c == 0:
+                        G[si] = pickle.loads(pickle.dumps(src))
+                    elif c == 1:
+                        G[si] = copymod.copy(src)
+                    elif c == 2:
+                        G[si] = src.to_mutable()
+                    elif c == 3:
+                        G[si] = src.to_frozen().to_mutable()
+                    else:
+                        txt = sourmash.save_signatures_to_json([src])
+                        G[si] = list(sourmash.load_signatures_from_json(io.BytesIO(txt)))[0].to_mutable()
+                    assert G[si] == src and not (G[si] != src), "a copy of a signature does not compare equal to it"
+                out.write(sig_line(G[si]) + "\n")
                 continue
             if op.startswith("@"):
-                # signature-object ops: implementation only (no model counterpart)
+                # implementation only (no model counterpart): the property oracle judges the observation
+                if op == "@sigpush":
+                    # a signature holding SEVERAL sketches (signature_push_mh): every sketch of the JSON text carries
+                    # its own md5sum, which must be the digest of its own k and hashes
+                    ss = SourmashSignature(T[int(a[0])])
+                    for x in a[1:]:
+                        rustcall(lib.signature_push_mh, ss._get_objptr(), T[int(x)]._get_objptr())
+                    js = json.loads(sourmash.save_signatures_to_json([ss]))
+                    parts = []
+                    for sk in js[0]["signatures"]:
+                        parts.append(f"k={sk['ksize']};md5={sk['md5sum']};mins={','.join(map(str, sk['mins']))}")
+                    assert len(parts) == len(a) == len(ss), "not every pushed sketch is in the JSON text / len(signature)"
+                    out.write("sigs " + " | ".join(parts) + "\n")
+                    continue
                 if op == "@sig":
                     G[int(a[0])] = SourmashSignature(T[int(a[1])], name=("" if len(a) < 3 else a[2]))
                 elif op == "@sigadd":
@@ -106,35 +358,103 @@ def main():
                 continue
             if op == "new":
                 r, num, scaled, track, ksize, seed = map(int, a)
-                T[r] = MinHash(num, ksize, track_abundance=bool(track), seed=seed, scaled=scaled)
+                c = route(3)
+                if c == 2 and track:
+                    mh = MinHash(num, ksize, track_abundance=False, seed=seed, scaled=scaled)
+                    mh.track_abundance = True       # kmerminhash_enable_abundance (allowed on an empty sketch)
+                elif c == 0 or scaled == 0:
+                    mh = MinHash(num, ksize, track_abundance=bool(track), seed=seed, scaled=scaled)
+                else:
+                    mh = MinHash(n=num, ksize=ksize, is_protein=False, dayhoff=False, hp=False,
+                                 track_abundance=bool(track), seed=seed, max_hash=0, mins=None, scaled=scaled)
+                put(T, R, r, mh)
                 res = show(T[r])
             elif op == "newmh":
                 r, num, mx, track, ksize, seed = map(int, a)
-                T[r] = MinHash(num, ksize, track_abundance=bool(track), seed=seed, max_hash=mx)
+                put(T, R, r, MinHash(num, ksize, track_abundance=bool(track), seed=seed, max_hash=mx))
                 res = show(T[r])
             elif op == "add":
                 h, v = map(int, a)
-                T[h].add_hash(v)
+                mh = T[h]
+                c = route(5)
+                if c == 0:
+                    mh.add_hash(v)
+                elif c == 1:
+                    mh.add_many([v])
+                elif c == 2:
+                    mh.add_many((v,))
+                elif c == 3 and mh.track_abundance:
+                    mh.add_hash_with_abundance(v, 1)
+                elif c == 4 and mh.track_abundance:
+                    mh.set_abundances({v: 1}, clear=False)
+                else:
+                    mh.add_hash(v)
                 res = show(T[h])
             elif op == "addab":
                 h, v, ab = map(int, a)
-                T[h].add_hash_with_abundance(v, ab)
+                mh = T[h]
+                if route(2) and mh.track_abundance:
+                    # set_abundances(clear=False) ADDS to the count of a hash that is present; 0 removes
+                    mh.set_abundances({v: ab}, clear=False)
+                else:
+                    mh.add_hash_with_abundance(v, ab)
                 res = show(T[h])
             elif op == "addmany":
                 h = int(a[0])
-                T[h].add_many([int(x) for x in a[1:]])
+                vs = [int(x) for x in a[1:]]
+                mh = T[h]
+                c = route(6)
+                nodup = len(set(vs)) == len(vs) or not mh.track_abundance
+                if c == 1:
+                    mh.add_many(tuple(vs))
+                elif c == 2 and nodup:
+                    mh.add_many(set(vs))
+                elif c == 3 and nodup:
+                    mh.add_many(dict.fromkeys(vs))
+                elif c == 4:
+                    for v in vs:
+                        mh.add_many([v])
+                elif c == 5 and nodup:
+                    mh.add_many(frozenset(vs))
+                else:
+                    mh.add_many(vs)
                 res = show(T[h])
             elif op == "addfrom":
                 h, g = map(int, a)
-                T[h].add_many(T[g])
+                c = route(3)
+                if c == 0:
+                    T[h].add_many(T[g])
+                elif c == 1:
+                    T[h].add_many(list(T[g].hashes))
+                else:
+                    T[h].add_many(T[g].hashes)              # the mapping view: its keys
                 res = show(T[h])
             elif op == "rm":
                 h = int(a[0])
-                T[h].remove_many([int(x) for x in a[1:]])
+                vs = [int(x) for x in a[1:]]
+                c = route(5)
+                if c == 0:
+                    T[h].remove_many(vs)
+                elif c == 1:
+                    T[h].remove_many(tuple(vs))
+                elif c == 2:
+                    T[h].remove_many(set(vs))
+                elif c == 3:
+                    for v in vs:
+                        T[h].remove_many([v])
+                else:
+                    for v in vs:        # the single-hash entry point (exported, not used by the Python layer)
+                        T[h]._methodcall(lib.kmerminhash_remove_hash, v)
                 res = show(T[h])
             elif op == "rmfrom":
                 h, g = map(int, a)
-                T[h].remove_many(T[g])
+                c = route(3)
+                if c == 0:
+                    T[h].remove_many(T[g])
+                elif c == 1:
+                    T[h].remove_many(list(T[g].hashes))
+                else:
+                    T[h].remove_many(T[g].hashes)
                 res = show(T[h])
             elif op == "setab":
                 h, clear = int(a[0]), bool(int(a[1]))
@@ -142,18 +462,32 @@ def main():
                 for p in a[2:]:
                     k, v = p.split(":")
                     vals[int(k)] = int(v)
-                T[h].set_abundances(vals, clear=clear)
+                c = route(3)
+                if c == 1:
+                    vals = dict(reversed(list(vals.items())))
+                elif c == 2:
+                    vals = collections.OrderedDict(sorted(vals.items()))
+                if clear and route(2):
+                    T[h].set_abundances(vals)               # clear=True is the default
+                else:
+                    T[h].set_abundances(vals, clear=clear)
                 res = show(T[h])
             elif op == "clear":
                 h = int(a[0])
-                T[h].clear()
+                mh = T[h]
+                c = route(3)
+                if c == 1 and mh.track_abundance:
+                    mh.set_abundances({})
+                elif c == 2:
+                    mh.remove_many(list(mh.hashes))
+                else:
+                    mh.clear()
                 res = show(T[h])
             elif op == "merge":
                 # one modelled operation, two API routes (`merge()` and `+=` both end in kmerminhash_merge); which one
                 # is used alternates with a counter the model does not see
                 h, g = map(int, a)
-                NROUTE[0] += 1
-                if NROUTE[0] % 2:
+                if route(2):
                     T[h].merge(T[g])
                 else:
                     t = T[h]
@@ -162,56 +496,170 @@ def main():
                 res = show(T[h])
             elif op == "plus":
                 r, h, g = map(int, a)
-                NROUTE[0] += 1
-                T[r] = (T[h] + T[g]) if NROUTE[0] % 2 else (T[h] | T[g])
+                c = route(4)
+                if c == 0:
+                    x = T[h] + T[g]
+                elif c == 1:
+                    x = T[h] | T[g]
+                elif c == 2:
+                    x = T[h].__add__(T[g])
+                elif stable(T[h], T[g]):
+                    x = T[h].to_frozen() + T[g].to_frozen()
+                else:
+                    x = T[h] + T[g]
+                put(T, R, r, x)
                 res = show(T[r])
             elif op == "copy":
                 r, h = map(int, a)
-                T[r] = T[h].copy()
+                c = route(5)
+                if c == 0:
+                    x = T[h].copy()
+                elif c == 1:
+                    x = copymod.copy(T[h])
+                elif c == 2:
+                    x = T[h].to_mutable()
+                elif c == 3 and stable(T[h]):
+                    x = frozen_refuses(T[h]).to_mutable()
+                else:
+                    x = T[h].__copy__()
+                assert not stable(T[h]) or (x == T[h] and T[h] == x), "a copy does not compare equal to its source"
+                put(T, R, r, x)
                 res = show(T[r])
             elif op == "pickle":
                 r, h = map(int, a)
-                T[r] = pickle.loads(pickle.dumps(T[h]))
+                src = T[h]
+                c = route(5)
+                if c == 0:
+                    x = pickle.loads(pickle.dumps(src))
+                elif c == 4 and stable(src):
+                    # a frozen sketch through pickle (FrozenMinHash.__setstate__), made mutable again
+                    x = pickle.loads(pickle.dumps(src.to_frozen())).to_mutable()
+                elif c == 1:
+                    # the constructor taking an existing collection
+                    hs = src.hashes
+                    x = MinHash(src.num, src.ksize, track_abundance=src.track_abundance, seed=src.seed,
+                                max_hash=src._max_hash, mins=(dict(hs) if src.track_abundance else list(hs)))
+                elif c == 2:
+                    x = copymod.deepcopy(src)
+                elif stable(src):
+                    f = src.to_frozen()
+                    x = MinHash.__new__(MinHash)
+                    x.__setstate__(f.__getstate__())
+                else:
+                    x = pickle.loads(pickle.dumps(src))
+                assert not stable(src) or x == src, "a pickled copy does not compare equal to its source"
+                put(T, R, r, x)
                 res = show(T[r])
             elif op == "down":
                 r, h, sc = map(int, a)
-                T[r] = T[h].downsample(scaled=sc)
+                src = T[h]
+                c = route(3)
+                if c == 1 and stable(src) and sc <= 2 ** 31:
+                    x = src.to_frozen().downsample(scaled=sc).to_mutable()
+                elif c == 2 and src.scaled and not src.track_abundance and sc > src.scaled:
+                    x = flatten_and_downsample_scaled(src, sc, src.scaled)
+                else:
+                    x = src.downsample(scaled=sc)
+                put(T, R, r, x)
                 res = show(T[r])
             elif op == "downnum":
                 r, h, n = map(int, a)
-                T[r] = T[h].downsample(num=n)
+                src = T[h]
+                c = route(3)
+                if c == 1 and stable(src):
+                    x = src.to_frozen().downsample(num=n).to_mutable()
+                elif c == 2 and src.num and not src.track_abundance and 0 < n < src.num:
+                    x = flatten_and_downsample_num(src, n, src.num)
+                else:
+                    x = src.downsample(num=n)
+                put(T, R, r, x)
                 res = show(T[r])
             elif op == "flat":
                 r, h = map(int, a)
                 # may return T[h] itself for a flat sketch (aliasing is C15's subject);
                 # the generator never mutates result handles
-                T[r] = T[h].flatten()
+                c = route(3)
+                if c == 0 or not stable(T[h]):
+                    x = T[h].flatten()
+                elif c == 1:
+                    x = T[h].to_frozen().flatten()
+                else:
+                    x = T[h].copy()
+                    x.track_abundance = False       # kmerminhash_disable_abundance
+                    x.track_abundance = False
+                put(T, R, r, x)
                 res = show(T[r])
             elif op == "inter":
                 r, h, g = map(int, a)
-                T[r] = T[h].intersection(T[g])
+                A, B = T[h], T[g]
+                c = route(4)
+                if c == 1:
+                    x = A & B
+                elif c == 2 and stable(A, B):
+                    x = A.to_frozen().intersection(B.to_frozen())
+                elif c == 3 and A.scaled and A.scaled == B.scaled and not A.track_abundance and not B.track_abundance \
+                        and A.is_compatible(B):
+                    x = flatten_and_intersect_scaled(A, B)
+                else:
+                    x = A.intersection(B)
+                put(T, R, r, x)
                 res = show(T[r])
             elif op == "inflate":
                 r, h, g = map(int, a)
-                T[r] = T[h].inflate(T[g])
+                if route(2) or not stable(T[h], T[g]):
+                    x = T[h].inflate(T[g])
+                else:
+                    x = T[h].to_frozen().inflate(T[g].to_frozen())
+                put(T, R, r, x)
                 res = show(T[r])
+            elif op == "addseq":
+                h, seq, force = int(a[0]), a[1], bool(int(a[2]))
+                mh = T[h]
+                c = route(3) if valid_dna(seq) and len(seq) >= mh.ksize else 0
+                if c == 1:
+                    for i in range(len(seq) - mh.ksize + 1):
+                        mh.add_kmer(seq[i:i + mh.ksize])
+                elif c == 2:
+                    mh.add_many(mh.seq_to_hashes(seq, force=force))
+                else:
+                    mh.add_sequence(seq, force)
+                res = show(T[h])
             elif op == "md5raw":
                 h = int(a[0])
-                res = "md5 " + decode_str(T[h]._methodcall(lib.kmerminhash_md5sum))
+                m1 = raw_md5(T[h])
+                assert raw_md5(T[h]) == m1, "two md5 queries in a row differ"
+                res = "md5 " + m1
             elif op == "md5":
                 h = int(a[0])
-                res = "md5 " + SourmashSignature(T[h]).md5sum()
+                c = route(3)
+                if c == 0:
+                    res = "md5 " + SourmashSignature(T[h]).md5sum()
+                elif c == 1:
+                    res = "md5 " + CollectionManifest.make_manifest_row(SourmashSignature(T[h]), None)["md5"]
+                else:
+                    ss = SourmashSignature(T[h])
+                    res = "md5 " + raw_md5(ss.minhash)
             elif op == "cc":
                 h, g, ds = map(int, a)
-                res = f"ok {T[h].count_common(T[g], bool(ds))}"
+                n1 = T[h].count_common(T[g], bool(ds))
+                try:
+                    n2 = T[g].count_common(T[h], bool(ds))
+                except BaseException:       # noqa: BLE001
+                    n2 = n1
+                assert n1 == n2, "count_common is not symmetric"
+                res = f"ok {n1}"
             elif op == "iu":
                 h, g = map(int, a)
                 c, u = T[h].intersection_and_union_size(T[g])
+                assert (c, u) == tuple(T[h].intersection_and_union_size(T[g])), "two size queries in a row differ"
                 res = f"ok {c} {u}"
             elif op == "show":
                 res = show(T[int(a[0])])
+                assert res == show(T[int(a[0])])
             else:
                 res = "bad-op"
+            if res != "bad-op":
+                R.verify()
         except KeyError:
             res = "bad-op"
         except BaseException as e:          # noqa: BLE001  (panics arrive as SourmashError subclasses)
